@@ -1318,3 +1318,170 @@ package stun
 //@     invariant ghost(fe_n) >= old(ghost(fe_n)) && FeLog(attrs, t, rangeindex + 1)
 //@     invariant FeVisited(attrs, t, 0, len(attrs), off(attrs) + rangeindex)
 //@     decreases len(attrs) - rangeindex
+
+// ======== Client (C10, C11, C12, C15): sequential contracts, one call at a time. ========
+// What is proved is what each method does to the client's table, to the connection (ghost write log), to the agent
+// (ghost log of Start/Stop requests) and to the handlers (the event log above) when it runs alone. Interleavings of
+// goroutines are NOT explored: the lock discipline below and the per-call contracts are the sequential half of the argument.
+//@ props C10 C15
+//@ guard Client.mux: t, closed
+
+// ClientInv: initialised client, mutex free, every registered transaction carries its key.
+//@ define ClientInv(c) = c != nil && gmap(held)[region(c)] == 0 && region(c.t) != 0
+//@ define SameClientTable(c) = forallkey(k, (haskey(c.t, k) <==> old(haskey(c.t, k))) && (haskey(c.t, k) ==> c.t[k] == old(c.t[k])))
+//@ define TableExcept(c, id) = forallkey(k, k != id ==> ((haskey(c.t, k) <==> old(haskey(c.t, k))) && (haskey(c.t, k) ==> c.t[k] == old(c.t[k]))))
+
+// once-guard: the handler runs on the first call only
+//@ func (*clientTransaction).handle
+//@   safety C10 C12
+//@   props C10 C12
+//@   requires t != nil && t.h != nil && 0 <= t.calls && t.calls < 2147483647
+//@   assigns t.calls, ghost(ev_n), gmapa(ev_tid)[ghost(ev_n)], gmap(ev_errt)[ghost(ev_n)], gmap(ev_errv)[ghost(ev_n)], gmap(ev_msg)[ghost(ev_n)], gmap(ev_h)[ghost(ev_n)]
+//@   ensures t.calls == old(t.calls) + 1
+//@   ensures old(t.calls) == 0 ==> OneEvent(e.TransactionID, e.Error) && gmap(ev_h)[old(ghost(ev_n))] == old(t.h) && gmap(ev_msg)[old(ghost(ev_n))] == region(e.Message)
+//@   ensures old(t.calls) != 0 ==> NoEvent()
+
+// k-th deadline: now + (attempt+1) * rto
+//@ func (*clientTransaction).nextTimeout
+//@   safety C11
+//@   props C11
+//@   pure
+//@   requires t != nil && 0 <= t.attempt && t.attempt < 2147483647
+//@   ensures result == now + (t.attempt + 1) * t.rto
+
+//@ func putClientTransaction
+//@   safety C10 C11 C12
+//@   props C12
+//@   requires t != nil
+//@   assigns t.raw, t.start, t.attempt, t.id, gmap(pooled)[region(t)]
+//@   ensures len(t.raw) == 0 && t.attempt == 0 && gmap(pooled)[region(t)] == 1
+
+// start: register t under its id unless the client is closed (checked first) or the id is taken
+//@ func (*Client).start
+//@   safety C10 C15
+//@   props C10 C15
+//@   requires ClientInv(c) && t != nil
+//@   assigns mem(c.t), gmap(held)[region(c)]
+//@   ensures ClientInv(c) && c.closed == old(c.closed)
+//@   ensures old(c.closed) ==> result == ErrClientClosed && SameClientTable(c)
+//@   ensures !old(c.closed) && old(haskey(c.t, t.id)) ==> result == ErrTransactionExists && SameClientTable(c)
+//@   ensures !old(c.closed) && !old(haskey(c.t, t.id)) ==> result == nil && haskey(c.t, t.id) && c.t[t.id] == t && TableExcept(c, t.id)
+
+//@ func (*Client).delete
+//@   safety C10 C15
+//@   props C10
+//@   requires ClientInv(c)
+//@   assigns mem(c.t), gmap(held)[region(c)]
+//@   ensures ClientInv(c) && !haskey(c.t, id) && TableExcept(c, id)
+
+// ---- the client's collaborators as ghost logs (interface contracts: assumed of every implementation) ----
+// connection writes: entry k of the write log holds the bytes handed to Write and the error it returned
+//@ define Wrote(k, p) = gmap(wr_len)[k] == len(p) && forall(j, 0, len(p), gmapa(wr_data)[k][j] == p[j])
+//@ define Writes(n) = ghost(wr_n) == old(ghost(wr_n)) + n
+//@ func Connection.Write(w, p)
+//@   assigns ghost(wr_n), gmapa(wr_data)[ghost(wr_n)], gmap(wr_len)[ghost(wr_n)], gmap(wr_errt)[ghost(wr_n)], gmap(wr_errv)[ghost(wr_n)]
+//@   allocates
+//@   ensures ghost(wr_n) == old(ghost(wr_n)) + 1 && Wrote(old(ghost(wr_n)), p)
+//@   ensures gmap(wr_errt)[old(ghost(wr_n))] == errtag(result1) && gmap(wr_errv)[old(ghost(wr_n))] == errval(result1)
+//@ func (*Message).WriteTo->io.Writer.Write(w, p)
+//@   assigns ghost(wr_n), gmapa(wr_data)[ghost(wr_n)], gmap(wr_len)[ghost(wr_n)], gmap(wr_errt)[ghost(wr_n)], gmap(wr_errv)[ghost(wr_n)]
+//@   allocates
+//@   ensures ghost(wr_n) == old(ghost(wr_n)) + 1 && Wrote(old(ghost(wr_n)), p)
+//@   ensures gmap(wr_errt)[old(ghost(wr_n))] == errtag(result1) && gmap(wr_errv)[old(ghost(wr_n))] == errval(result1)
+
+//@ func (*Message).WriteTo
+//@   safety C10 C11 C15
+//@   props C11
+//@   requires m != nil && w != nil
+//@   assigns ghost(wr_n), gmapa(wr_data)[ghost(wr_n)], gmap(wr_len)[ghost(wr_n)], gmap(wr_errt)[ghost(wr_n)], gmap(wr_errv)[ghost(wr_n)]
+//@   allocates
+//@   ensures Writes(1) && Wrote(old(ghost(wr_n)), m.Raw)
+//@   ensures gmap(wr_errt)[old(ghost(wr_n))] == errtag(result1) && gmap(wr_errv)[old(ghost(wr_n))] == errval(result1)
+
+// agent requests: entry k of the agent log = (op 1 Start / 2 Stop, id, deadline) and the error returned
+//@ define AgentOps(n) = ghost(ag_n) == old(ghost(ag_n)) + n
+//@ define AgentOp(k, op, id) = gmap(ag_op)[k] == op && gmapa(ag_id)[k] == id
+//@ func ClientAgent.Start(a, id, deadline)
+//@   assigns ghost(ag_n), gmap(ag_op)[ghost(ag_n)], gmapa(ag_id)[ghost(ag_n)], gmap(ag_dl)[ghost(ag_n)], gmap(ag_errt)[ghost(ag_n)], gmap(ag_errv)[ghost(ag_n)]
+//@   allocates
+//@   ensures ghost(ag_n) == old(ghost(ag_n)) + 1 && AgentOp(old(ghost(ag_n)), 1, id) && gmap(ag_dl)[old(ghost(ag_n))] == deadline
+//@   ensures gmap(ag_errt)[old(ghost(ag_n))] == errtag(result) && gmap(ag_errv)[old(ghost(ag_n))] == errval(result)
+// Stop synchronously calls the client's callback with ErrTransactionStopped for that id (see Agent.StopWithError): the
+// callback is a no-op only if the id is no longer in the client's table, which each caller therefore owes.
+//@ func (*Client).Start->ClientAgent.Stop(a, id)
+//@   requires !haskey(c.t, id)
+//@   assigns ghost(ag_n), gmap(ag_op)[ghost(ag_n)], gmapa(ag_id)[ghost(ag_n)], gmap(ag_errt)[ghost(ag_n)], gmap(ag_errv)[ghost(ag_n)]
+//@   allocates
+//@   ensures ghost(ag_n) == old(ghost(ag_n)) + 1 && AgentOp(old(ghost(ag_n)), 2, id)
+//@   ensures gmap(ag_errt)[old(ghost(ag_n))] == errtag(result) && gmap(ag_errv)[old(ghost(ag_n))] == errval(result)
+//@ func (*Client).handleAgentCallback->ClientAgent.Stop(a, id)
+//@   requires !haskey(c.t, id)
+//@   assigns ghost(ag_n), gmap(ag_op)[ghost(ag_n)], gmapa(ag_id)[ghost(ag_n)], gmap(ag_errt)[ghost(ag_n)], gmap(ag_errv)[ghost(ag_n)]
+//@   allocates
+//@   ensures ghost(ag_n) == old(ghost(ag_n)) + 1 && AgentOp(old(ghost(ag_n)), 2, id)
+//@   ensures gmap(ag_errt)[old(ghost(ag_n))] == errtag(result) && gmap(ag_errv)[old(ghost(ag_n))] == errval(result)
+
+// clock: the last reading is kept in ghost(now_last)
+//@ func Clock.Now(c)
+//@   assigns ghost(now_last)
+//@   ensures result == ghost(now_last)
+
+// pooled objects: what Get hands out is owned by the caller alone (modelled as a fresh object; the pool's
+// ownership discipline - nobody keeps using an object after Put - is the assumption)
+//@ func acquireClientTransaction->(*sync.Pool).Get(p)
+//@   pure
+//@   allocates
+//@   resulttype *clientTransaction
+//@   ensures result != nil && fresh(result) && (fresh(result.raw) || region(result.raw) == 0) && 0 <= len(result.raw) && len(result.raw) <= cap(result.raw)
+//@ func acquireClientTransaction
+//@   safety C10 C11 C12
+//@   props C12
+//@   pure
+//@   allocates
+//@   ensures result != nil && fresh(result) && (fresh(result.raw) || region(result.raw) == 0)
+//@ func (*Client).handleAgentCallback->(*sync.Pool).Get(p)
+//@   pure
+//@   allocates
+//@   resulttype *buffer
+//@   ensures result != nil && fresh(result) && (fresh(result.buf) || region(result.buf) == 0) && 0 <= len(result.buf) && len(result.buf) <= cap(result.buf)
+
+//@ func (*Client).checkInit
+//@   safety C10 C15
+//@   props C15
+//@   pure
+//@   ensures result == nil <==> (c != nil && c.c != nil && c.a != nil && c.close != nil)
+//@   ensures result != nil ==> result == ErrClientNotInitialized
+
+// ClientReady: what NewClient establishes and every method keeps
+//@ define ClientReady(c) = ClientInv(c) && c.clock != nil && c.collector != nil
+//@   | && forallkey(k, haskey(c.t, k) ==> c.t[k] != nil && c.t[k].id == k && c.t[k].h != nil && c.t[k].calls == 0 && 0 <= c.t[k].attempt && c.t[k].attempt < 2147483647)
+//@ define Registered(c, id, t) = haskey(c.t, id) && c.t[id] == t
+//@ define LastWriteErr() = gmap(wr_errt)[ghost(wr_n) - 1] != 0
+
+//@ func (*Client).Start
+//@   safety C10 C11 C15
+//@   props C10 C15
+//@   requires msg != nil && (c == nil || ClientReady(c))
+//@   assigns mem(c.t), gmap(held)[region(c)], ghost(now_last), ghost(wr_n), gmapa(wr_data), gmap(wr_len), gmap(wr_errt), gmap(wr_errv), ghost(ag_n), gmap(ag_op), gmapa(ag_id), gmap(ag_dl), gmap(ag_errt), gmap(ag_errv)
+//@   allocates
+//@   ensures c != nil ==> ClientReady(c) && c.closed == old(c.closed)
+// not initialised / closed: refuse before any side effect (C15)
+//@   ensures c == nil || c.c == nil || c.a == nil || c.close == nil ==> result == ErrClientNotInitialized && Writes(0) && AgentOps(0)
+//@   ensures c != nil && c.c != nil && c.a != nil && c.close != nil && old(c.closed) ==> result == ErrClientClosed && Writes(0) && AgentOps(0) && SameClientTable(c)
+// indication: one write of the message, nothing registered
+//@   props C10
+//@   ensures result != ErrClientNotInitialized && c != nil && !old(c.closed) && handler == nil ==> Writes(1) && AgentOps(0) && SameClientTable(c) && Wrote(old(ghost(wr_n)), msg.Raw)
+// transaction with an id already in flight: refused, nothing written, the running transaction untouched
+//@   ensures result != ErrClientNotInitialized && c != nil && !old(c.closed) && handler != nil && old(haskey(c.t, msg.TransactionID)) ==> result == ErrTransactionExists && Writes(0) && AgentOps(0) && SameClientTable(c)
+// new transaction: registered with a private snapshot of the bytes and of the RTO, agent started with start + 1*rto, one write
+//@   props C10 C11
+//@   ensures result == nil && handler != nil && c != nil ==> Registered(c, msg.TransactionID, c.t[msg.TransactionID]) && TableExcept(c, msg.TransactionID)
+//@   ensures result == nil && handler != nil && c != nil ==> bytes_eq(c.t[msg.TransactionID].raw, msg.Raw) && (region(c.t[msg.TransactionID].raw) != region(msg.Raw) || len(msg.Raw) == 0)
+//@   ensures result == nil && handler != nil && c != nil ==> c.t[msg.TransactionID].rto == old(c.rto) && c.t[msg.TransactionID].attempt == 0 && c.t[msg.TransactionID].h == handler
+//@   ensures result == nil && handler != nil && c != nil ==> Writes(1) && Wrote(old(ghost(wr_n)), msg.Raw) && AgentOps(1) && AgentOp(old(ghost(ag_n)), 1, msg.TransactionID)
+//@   ensures result == nil && handler != nil && c != nil ==> gmap(ag_dl)[old(ghost(ag_n))] == ghost(now_last) + old(c.rto)
+// an error leaves nothing registered under the id by this call (the handler will never run), and never more than one write
+//@   props C10
+//@   ensures result != nil && c != nil && !old(haskey(c.t, msg.TransactionID)) ==> !haskey(c.t, msg.TransactionID) && TableExcept(c, msg.TransactionID)
+//@   ensures ghost(wr_n) <= old(ghost(wr_n)) + 1
+//@   ensures NoEvent()
